@@ -3,7 +3,7 @@ import os, sys, binascii
 sys.path.insert(0, os.path.dirname(__file__))
 from _common import main
 
-BOUND = 'decode / switch masking on (in place, by replacing the entry, on a copy) / decode twice more with the same configuration object; mask(): lengths 10..40, patterned/random digit and arbitrary-character inputs, 4 mask characters; loads(): PAN / PAN-PREFIX processor on LLVAR/LLLVAR elements 2,34,48,100 with values of length 10..40 (11..99 for PAN), latin_1 and cp500, binary and hex bitmap'
+BOUND = 'masking combined with a python type (string, int, long, decimal); decode / switch masking on (in place, by replacing the entry, on a copy) / decode twice more with the same configuration object; mask(): lengths 10..40, patterned/random digit and arbitrary-character inputs, 4 mask characters; loads(): PAN / PAN-PREFIX processor on LLVAR/LLLVAR elements 2,34,48,100 with values of length 10..40 (11..99 for PAN), latin_1 and cp500, binary and hex bitmap'
 
 
 def check_mask(s, c):
@@ -63,7 +63,28 @@ def check_history(inp):
     return None
 
 
+def check_typed(inp):
+    """masking configured on an element that also has a python type: whatever the outcome (value or library error), the clear
+    PAN is nowhere in what is returned -- not as text, not as a number"""
+    from cardutil import iso8583
+    pan, proc, ptype = inp['pan'], inp['proc'], inp['ptype']
+    cfg = {'2': {'field_name': 'pan', 'field_type': 'LLVAR', 'field_length': 0, 'field_processor': proc, 'field_python_type': ptype},
+           '3': {'field_name': 'y', 'field_type': 'FIXED', 'field_length': 6}}
+    plain = {'2': {'field_name': 'pan', 'field_type': 'LLVAR', 'field_length': 0}, '3': cfg['3']}
+    raw = iso8583.dumps({'MTI': '1144', 'DE2': pan, 'DE3': '000000'}, iso_config=plain)
+    try:
+        out = iso8583.loads(raw, iso_config=cfg)
+    except iso8583.Iso8583DataError:
+        return None
+    for k, v in out.items():
+        if pan in str(v) or (str(v).isdigit() and str(v) == pan.lstrip('0')):
+            return 'clear PAN disclosed: element with %s processor and python type %s: key %s of the decoded message holds %r' % (proc, ptype, k, v)
+    return None
+
+
 def oracle(inp):
+    if inp['kind'] == 'typed':
+        return check_typed(inp)
     if inp['kind'] == 'history':
         return check_history(inp)
     if inp['kind'] == 'mask':
@@ -81,6 +102,10 @@ def cases(tier, rng):
             yield {'kind': 'mask', 's': ('12' * n)[:n], 'c': c}
             yield {'kind': 'mask', 's': ''.join(rng.choice(chars) for _ in range(n)), 'c': c}
             yield {'kind': 'mask', 's': ''.join(chr(rng.randint(32, 300)) for _ in range(n)), 'c': c}
+    for proc in ('PAN', 'PAN-PREFIX'):
+        for ptype in ('string', 'int', 'long', 'decimal'):
+            for n in (11, 13, 16, 19):
+                yield {'kind': 'typed', 'proc': proc, 'ptype': ptype, 'pan': ''.join(rng.choice('123456789') for _ in range(n))}
     for how in ('in-place', 'replace-entry', 'copy'):
         for proc in ('PAN', 'PAN-PREFIX'):
             for n in (11, 16, 19):
